@@ -49,7 +49,7 @@ func (Engine) Describe(prop string) core.Description {
 			"only page[number] and page[size] are generated as page parameters; an empty field list and an absent entry are the same selection",
 			"the fixed-point clause is monitored on sampled URLs; the seam-dependent clause (parameter / list order, map order) is what simulation decides",
 		},
-		Probes: []string{"parse-ok", "parse-error", "parse-panic", "reserved-char-in-id", "reserved-char-in-filter-label", "reserved-char-in-page-value", "reserved-char-in-filter-string", "filter-tree", "type-without-fields", "variant-params-permuted", "variant-empty-items", "relationship-url", "collection-url", "include-param"},
+		Probes: []string{"parse-ok", "parse-error", "parse-panic", "reserved-char-in-id", "reserved-char-in-filter-label", "reserved-char-in-page-value", "reserved-char-in-filter-string", "filter-tree", "type-without-fields", "variant-params-permuted", "variant-empty-items", "relationship-url", "collection-url", "include-param", "extra-page-parameter"},
 	}
 }
 
@@ -65,7 +65,9 @@ type param struct {
 	keep  bool // the order of items matters (sort)
 }
 
-var reserved = []string{" ", "&", "?", "#", "%", "+", "/", "=", "é", ";"}
+// URL-reserved characters, control bytes (below 0x10 they need a leading zero when
+// percent-encoded), and text that looks like an escape sequence
+var reserved = []string{" ", "&", "?", "#", "%", "+", "/", "=", "é", ";", "\t", "\n", "\x00", "\x0f", `\`, `\u0026`, `\u003c`, `"`, "%41", "%zz"}
 
 func spice(t *core.Tape, base string) (string, bool) {
 	if !t.Bool(1, 3) {
@@ -349,6 +351,14 @@ func drawURL(t *core.Tape, s *world.SchemaSpec) *urlSpec {
 		}
 
 		u.params = append(u.params, param{name: "page[" + k + "]", value: v})
+	}
+
+	// other page parameters are legal too (the parser keeps them), also with
+	// reserved characters in their name
+	if t.Bool(1, 6) {
+		k, _ := spice(t, []string{"cursor", "after", "k"}[t.Draw(3)])
+		u.params = append(u.params, param{name: "page[" + k + "]", value: fmt.Sprint(t.Draw(9))})
+		u.flags["extra-page-parameter"] = true
 	}
 
 	// filter
